@@ -1,0 +1,36 @@
+//go:build verif
+
+package rtree
+
+import "container/heap"
+
+// Model of container/heap used only by the verifier (the verif build tag is
+// never set in normal builds): the sift-up / sift-down loops are replaced by
+// an arbitrary sequence of in-range Less/Swap calls, which over-approximates
+// what the real package may do to the heap's memory through its interface.
+
+var (
+	verifNondetBool func() bool
+	verifNondetInt  func() int
+)
+
+func verifHeapShuffle(h heap.Interface) {
+	for verifNondetBool() {
+		n := h.Len()
+		i, j := verifNondetInt(), verifNondetInt()
+		if 0 <= i && i < n && 0 <= j && j < n {
+			_ = h.Less(i, j)
+			h.Swap(i, j)
+		}
+	}
+}
+
+func verifHeapPush(h heap.Interface, x interface{}) {
+	h.Push(x)
+	verifHeapShuffle(h)
+}
+
+func verifHeapPop(h heap.Interface) interface{} {
+	verifHeapShuffle(h)
+	return h.Pop()
+}
